@@ -56,6 +56,11 @@ def _lines(draw, fmt, grain):
         return []
     gas_codes = {"kida": [1, 2, 3, 4, 5], "umist": ["NN", "PH", "CP", "CR", "DR"], "leeds": [1, 2, 3, 4, 5], "uclchem": ["", "CRP", "PHOTON", "CRPHOT"], "naunet": [100, 101, 102, 110, 111, 120]}[fmt]
     gas = [(["H", "H"], ["H2"]), (["H2", "C+"], ["CH+", "H"]), (["H+", e], ["H"]), (["CO"], ["C", "O"]), (["He+", e], ["He"]), (["H2"], ["H", "H"]), (["N2"], ["N", "N"]), (["H2O"], ["OH", "H"])]
+    # H, H2, H+ and the electron are in every network (cooling processes, modifiers and the UCLCHEM class refer to them):
+    # constructed, not filtered
+    two_body = {"kida": 3, "umist": "NN", "leeds": 1, "uclchem": "", "naunet": 100}[fmt]
+    out.append(_lr(fmt, ["H", "H"], ["H2"], two_body, a=1e-17))
+    out.append(_lr(fmt, ["H+", e], ["H"], two_body, a=3.5e-12, b=-0.7))
     for code in draw(st.lists(st.sampled_from(gas_codes), min_size=2, max_size=6)):
         r, p = draw(st.sampled_from(gas))
         if fmt == "umist" and len(r) > 2:
